@@ -191,7 +191,10 @@ class BasicDBusProtocol(protocol.Protocol):
                         log.msg('DBus Authentication failed: ' + str(e))
                         self.transport.loseConnection()
             else:
-                if len(self._buffer) > self.MAX_AUTH_LENGTH:
+                # The unterminated remainder may already hold the first byte
+                # of the delimiter of a maximum-length line
+                if len(self._buffer) > (self.MAX_AUTH_LENGTH
+                                        + len(self.authDelimiter) - 1):
                     return self.authMessageLengthExceeded(self._buffer)
 
     def fileDescriptorReceived(self, fd):
